@@ -294,6 +294,9 @@ func newHistory(seed uint64, run int, sum *coqout.Summary, w *coqout.Writer) (*h
 				doc.Staking.CommonPool = qty(pool)
 				doc.Staking.TotalSupply = qty(ts)
 			}
+			// whatever the variants above wrote: the recorded supply is the exact sum of the
+			// final document, computed last
+			exactSupply(doc)
 		},
 	})
 	if err != nil {
@@ -1056,7 +1059,13 @@ func hugeGenesis(doc *genesis.Document, variant string) {
 	if variant != "near 2^128 (stake bypassed)" {
 		doc.Scheduler.Parameters.VotingPowerDistribution = scheduler.VotingPowerDistributionSqrt
 	}
-	// total supply = sum of everything
+	exactSupply(doc)
+}
+
+// exactSupply sets TotalSupply to the exact big-integer sum of every balance and pool of the
+// genesis document.
+func exactSupply(doc *genesis.Document) {
+	st := &doc.Staking
 	total := new(big.Int)
 	for _, acc := range st.Ledger {
 		total.Add(total, acc.General.Balance.ToBigInt())
@@ -1395,6 +1404,8 @@ func newChanges(r *prng.R, forceZeroVQ bool) (staking.ConsensusParameterChanges,
 	}
 	return c, strings.Join(d, ",")
 }
+
+var harnessErrors []string
 
 var errHalt = fmt.Errorf("chain halted: no validators electable")
 
@@ -2122,8 +2133,12 @@ func flavorClass(f string) string {
 func runHistory(seed uint64, run, blocks int, sum *coqout.Summary, w *coqout.Writer) {
 	h, err := newHistory(seed, run, sum, w)
 	if err != nil {
-		sum.Violations = append(sum.Violations, map[string]any{"what": "cannot boot the multiplexer: " + err.Error(),
-			"case": caseDesc{Seed: seed, Run: run, Blocks: 0}})
+		// a generated genesis that the real InitChain rejects is a defect of the generator,
+		// not an observation about the property
+		msg := fmt.Sprintf("HARNESS ERROR (not a property violation): generated genesis of seed %d run %d does not boot: %v", seed, run, err)
+		fmt.Println(msg)
+		sum.Count("harness_errors", "generated genesis does not boot")
+		harnessErrors = append(harnessErrors, msg)
 		return
 	}
 	defer h.close()
@@ -2213,6 +2228,12 @@ func main() {
 		fmt.Printf("%d violations, first: %v\n", len(sum.Violations), sum.Violations[0])
 	}
 	fmt.Printf("blocks=%d cases=%d violations=%d\n", sum.Evaluations, w.Total, len(sum.Violations))
+	if len(harnessErrors) > 0 {
+		// the driver reports a non-zero exit as a harness failure (kind harness-run), distinct
+		// from implementation-side violations
+		fmt.Println(strings.Join(harnessErrors, "\n"))
+		os.Exit(3)
+	}
 }
 
 var _ = consensusGenesis.GasOpTxByte
